@@ -186,7 +186,7 @@ def run (T : MesgTable) : Acc → List Field → Outcome Acc
 def ofMesg (T : MesgTable) (m : Message) : Outcome Struct :=
   match run T Acc.init m.fields with
   | .panic => .panic
-  | .ok acc => .ok { vals := T.slots.map fun s => read s (acc.vals s.num)
+  | .ok acc => .ok { vals := T.slots.map fun s => read s (acc.vals s.readNum)
                      state := acc.state
                      unknown := acc.unknown
                      dev := if T.hasDev then m.devFields else [] }
@@ -243,6 +243,17 @@ def numOf : Value → Nat
   | .float32 v | .float64 v => v
   | _ => 0
 
+/-- a fixed-length array: padded with the invalid element (the empty string for strings) or cut to `n`; worth
+nothing when every element is then the invalid one -/
+def specFixed (n inv : Nat) (v : Value) : Option Value :=
+  match v with
+  | .sliceString vs =>
+    let es := copyInto (List.replicate n []) vs
+    if es = List.replicate n [] then none else some (.sliceString es)
+  | v =>
+    let es := copyInto (List.replicate n inv) (elems v)
+    if es = List.replicate n inv then none else some (withElems v es)
+
 /-- What a value in a field of slot `s` is worth to the typed layer, by the protocol's notion of "invalid" for the
 field's base type (NOT by the generated sentinel): `none` when the value is of another type than the field's
 (it "reads as invalid") or is the invalid value; otherwise the value, a fixed-length array padded with the base
@@ -255,20 +266,14 @@ def specVal (s : Slot) (v : Value) : Option Value :=
   | .str => if v = .string [] then none else some v
   | .time => if numOf v % 2 ^ 32 = uint32Invalid then none else some (.uint32 (numOf v % 2 ^ 32))
   | .slice => some v
-  | .fixed n =>
-    match v with
-    | .sliceString vs =>
-      let es := copyInto (List.replicate n []) vs
-      if es = List.replicate n [] then none else some (.sliceString es)
-    | v =>
-      let es := copyInto (List.replicate n (btInvalid s.baseType)) (elems v)
-      if es = List.replicate n (btInvalid s.baseType) then none else some (withElems v es)
+  | .fixed n => specFixed n (btInvalid s.baseType) v
+
+/-- value of the last stored field with number `k`, `init` if there is none (a left fold: a later field overrides an earlier one) -/
+def lastFrom (T : MesgTable) (k : Nat) (init : Value) (fs : List Field) : Value :=
+  fs.foldl (fun v f => if stored T f && numIs k f then f.value else v) init
 
 /-- value of the last stored field with number `k` (the invalid value if there is none) -/
-def lastStored (T : MesgTable) (fs : List Field) (k : Nat) : Value :=
-  match (fs.filter fun f => stored T f && numIs k f).getLast? with
-  | some f => f.value
-  | none => .invalid
+def lastStored (T : MesgTable) (fs : List Field) (k : Nat) : Value := lastFrom T k .invalid fs
 
 /-- some stored field with number `k` is flagged as expanded -/
 def anyMarked (T : MesgTable) (fs : List Field) (k : Nat) : Bool :=
